@@ -1,4 +1,5 @@
 import Zstd.Proofs.EncReal
+import Zstd.Proofs.SeqFrame
 /-
 C16 — compression is correct for every well-behaved user-supplied matcher.
 
@@ -356,6 +357,34 @@ theorem compress_with_matcher_correct_full_of (R : Huf.EncTable → Spec.Huffman
   intro hash c hc w script data frags hm hu
   exact compress_with_matcher_correct_partial R hash compressBlockReal c hc w script data frags hm (henc w)
     (htotal w script data hm hu)
+
+
+/-- **the block-encoder contract with its sequences half discharged** (C12 slice: the count, the modes
+byte, three FSE table descriptions and the interleaved bitstream are decoded by the strict Spec to the
+sequences — `Props.C12.encode_decode_sequences`; the matcher's parse is `Spec.execSequences` of the
+sequences sent — `Proofs.SeqExec.execParse_refines`): for EVERY literal coder that satisfies
+`LitCoderCorrect`, `compress_block` over the real sequence coder satisfies `BlockEncCorrect`, for every
+matcher window whose offsets survive `(offset + 3) as u32` and every declared window at least as large. -/
+theorem block_encoder_contract_of_literal_coder {H : Type} (R : H → Spec.Huffman.Table → Prop) (cd : Coders H)
+    (hcd : LitCoderCorrect R cd) (hseq : cd.encodeSeqSection = encodeSeqSectionReal)
+    (w window : Nat) (hww : w ≤ window) (hw32 : w + 3 < 2 ^ 32) :
+    BlockEncCorrect R w window (compressBlock cd) :=
+  Proofs.SeqBlock.blockEncCorrect_of_litCoder R cd hcd hseq w window hww hw32
+
+/-- **C16 reduced to the literal coder.**  For every well-behaved matcher with `window_size() + 3 < 2^32`
+and the REAL block encoder: if the real literal coder (1) satisfies its contract and (2) does not panic
+on more than 1024 and at most 128 Ki literals (both are C13 obligations), then compression at
+`Fastest` completes and the strict Spec decodes the frame to exactly the input.  Unlike
+`compress_with_matcher_correct_full_of`, totality is only required of the literal coder (the block
+encoder is only ever run on the parses of the blocks of the data, which the matcher promised valid). -/
+theorem compress_with_matcher_correct_of_literal_coder (R : Huf.EncTable → Spec.Huffman.Table → Prop)
+    (hcd : LitCoderCorrect R realCoders)
+    (hlit : ∀ lits prev, 1024 < lits.length → lits.length ≤ 131072 → ∃ r, compressLiteralsReal lits prev = .ok r)
+    (hash : Bool) (c : Compressor Huf.EncTable) (hc : c.level = .fastest) (w : Nat) (script : Nat → MBlock)
+    (data : List Byte) (frags : List Nat) (hm : ValidMatcher w script data) (hw32 : w + 3 < 2 ^ 32) :
+    ∃ frame c', compressFrame hash compressBlockReal c w script data frags = .ok (frame, c') ∧
+      Spec.decodeFrame frame = some (specResult hash w data frame) :=
+  Proofs.SeqFrame.compress_with_matcher_correct_of_litCoder R realCoders hcd rfl hlit hash c hc w script data frags hm hw32
 
 /-- non-vacuity, end to end, by kernel evaluation: a 47-byte input, a scripted matcher with window
 1024 that reports two matches (offsets 12 and 39), read in fragments of 3 and 1 bytes: the script is a
